@@ -286,7 +286,9 @@ Proof.
   { pose proof (isi_spec_row_length RN dt (maxcount trains) tr Hle) as L.
     unfold isi_spec_row in L. rewrite app_length, map_length, repeat_length in L. lia. }
   repeat split.
-  - rewrite Hlen, Hd. rewrite Hrow at 1. reflexivity.
+  - rewrite Hrow at 1. unfold isi_spec_row. f_equal. f_equal.
+    transitivity ((maxcount trains - 1) - (count tr - 1))%nat; [reflexivity|].
+    rewrite <- Hlen, <- Hd. reflexivity.
   - assumption.
   - intros t1 rest E. rewrite E. apply integrate_diffs.
 Qed.
